@@ -40,6 +40,7 @@ type Prog struct {
 	sortsDeclared []string
 	specFiles []string
 	specFunOrder []string
+	implCache map[string][]implSpec
 }
 
 func isRepoPath(p string) bool {
@@ -176,8 +177,36 @@ func (P *Prog) mergeVariants() {
 		if base == nil {
 			continue
 		}
+		// aspects: variants that prove additional postconditions of the plain contract under the same
+		// preconditions, each with its own (smaller) set of invariants; their ensures are exported
 		for _, s := range specs {
-			if s.Variant == "" || s.NoInherit {
+			if s.Variant == "" || !s.Aspect {
+				continue
+			}
+			s.Requires = append(append([]*Clause{}, base.Requires...), s.Requires...)
+			s.Lets = append(append([]*Hint{}, base.Lets...), s.Lets...)
+			if len(s.Modifies) == 0 && !s.ModAll {
+				s.Modifies = base.Modifies
+				s.ModAll = base.ModAll
+			}
+			if len(s.Returns) == 0 {
+				s.Returns = base.Returns
+			}
+			if len(s.Props) == 0 {
+				s.Props = base.Props
+			}
+			if s.CallUses == nil {
+				s.CallUses = base.CallUses
+			}
+			for _, c := range s.Ensures {
+				cp := *c
+				cp.Free = true
+				cp.Src = c.Src + "   [proved in aspect " + s.Variant + "]"
+				base.Ensures = append(base.Ensures, &cp)
+			}
+		}
+		for _, s := range specs {
+			if s.Variant == "" || s.NoInherit || s.Aspect {
 				continue
 			}
 			s.Requires = append(append([]*Clause{}, base.Requires...), s.Requires...)
